@@ -132,6 +132,10 @@ def stat_getters(st):
     return out
 
 
+class InjectedAbort(BaseException):
+    """a handler failure that is not an Exception subclass (like KeyboardInterrupt or a framework's abort signal)"""
+
+
 class Runaway(Exception):
     """events were executed far more often than they were scheduled (emergency brake fired)"""
 
@@ -276,6 +280,13 @@ class Harness:
                     except Exception as e:
                         self.slog.append((parent, i, "cancel", type(e).__name__, 0, 0))
             elif k == "raise":
+                kind = a[1] if len(a) > 1 else "exc"
+                if kind == "base":
+                    raise InjectedAbort(f"injected handler fault in {parent}")
+                if kind == "exit":
+                    raise SystemExit(f"injected handler fault in {parent}")
+                if kind == "key":
+                    raise KeyError(parent)
                 raise RuntimeError(f"injected handler fault in {parent}")
             elif k == "gate":
                 g = self.gates.setdefault(a[1], Gate())
@@ -341,6 +352,10 @@ class Harness:
                                 h.events[tag] = ev
                             elif a[0] == "obs":
                                 h._observe(model, a)
+                            elif a[0] == "unsub" and self.n == a[1]:
+                                # this listener unsubscribes itself after its a[1]-th notification
+                                h.timeline.append(("u", self.tname, self.spec["name"]))
+                                h.fan_producer.remove_listener(h.fan_types[self.tname], self)
                 for spec in listeners:
                     self.fan_producer.add_listener(self.fan_types[tname], FanListener(tname, spec))
         for sp in self.prog.get("stats", []):
@@ -470,7 +485,7 @@ class Harness:
             else:
                 getattr(self.sim, name)()
             return "ok"
-        except Exception as e:
+        except BaseException as e:     # also SystemExit / abort signals escaping from a command are an observation
             return type(e).__name__
 
     def start_and_pause_after(self, n, starter="start", arg=None, timeout=30.0):
